@@ -10,6 +10,10 @@ CHECKS = {
    "Every transition out of every list length 0..N with every choice of node/mark handle, plus all operation sequences up to depth 5/6 from the empty list and depth 3 from canonical lists of every length, executed on the real xlist.List and compared with a slice-of-handles model by walking both directions after each operation. Exhaustive within these bounds; the list has no hidden state beyond its pointers, so the closure by length covers every reachable shape up to N.",
    "Values are opaque to the list (parametricity). Lists longer than N nodes and sequences longer than the depth bound that are not covered by the length-closure argument are outside the bound.",
    "DESIGN.md §4 C06"),
+ "C05": ("seqx", "explicit-state BFS closure over reachable heap arrays from every initial slice, multiset / key->priority map reference model, full observation after every transition",
+   "Closure of the reachable states (heap array order as exposed by Iterate) of the real xheap.Heap (<=7/9 items, 3 priorities with ties, every initial slice up to length 6/8) and xheap.PriorityQueue (6/7 keys, 3 priorities, every initial list up to length 4/5 incl. duplicate keys), built with less and with compare, under Push/Pop resp. Update/Remove/Pop. After every transition: Len, Peek minimality, Pop minimality and membership, Contains/Priority of every key (also absent ones), Iterate as a set, panics on empty. Exhaustive within the size bounds.",
+   "Items are opaque except through the comparison (parametricity): tied items are interchangeable in the state key. Heaps larger than the size bound are not explored.",
+   "DESIGN.md §4 C05"),
 }
 props = [json.loads(l) for l in open(os.path.join(ROOT, "properties.jsonl"))]
 hook_commits = subprocess.run(["git","-C","/repo","log","--format=%H %s","--grep=^verif hook"],capture_output=True,text=True).stdout.strip().splitlines()
